@@ -180,7 +180,7 @@ add("C12", "exploration", [
 ])
 
 add("C13", "fault_enumeration", [
-    {"name": "c13-cache", "bin": "c13", "pkg": ZZ + "c13", "run": "^TestVerifC13(Cache|KnownZstd)$",
+    {"name": "c13-cache", "bin": "c13", "pkg": ZZ + "c13", "run": "^TestVerifC13(Cache|Shapes|KnownZstd)$",
      "shards": {"quick": 12, "thorough": 16}, "checks": {"quick": 5, "thorough": 150},
      "timeout": {"quick": 900, "thorough": 3300}, "shrinktime": "90s"},
 ])
